@@ -62,6 +62,36 @@ func (p *Prog) HandlerPairs(fn *ssa.Function) []HandlerPair {
 			}
 			out = append(out, hp)
 		}
+		// registrations through a local wrapper closure: addHandler := func(kind, do, undo) { runner.AddHandler(kind, do, undo); ... }
+		for _, b := range f.Blocks {
+			for _, in := range b.Instrs {
+				ci, ok := in.(ssa.CallInstruction)
+				if !ok {
+					continue
+				}
+				w := StaticFn(ci)
+				if w == nil || w.Parent() != f || len(w.Params) != 3 {
+					continue
+				}
+				forwards := false
+				for _, ac := range CallSites(w, addHandler) {
+					a := CallArgs(ac)
+					if len(a) == 3 && a[0] == ssa.Value(w.Params[0]) && a[1] == ssa.Value(w.Params[1]) && a[2] == ssa.Value(w.Params[2]) {
+						forwards = true
+					}
+				}
+				if !forwards {
+					continue
+				}
+				a := ci.Common().Args
+				k, _ := ConstString(a[0])
+				hp := HandlerPair{Kind: k, Do: funcValue(a[1]), Site: ci}
+				if !IsNilConst(a[2]) {
+					hp.Undo = funcValue(a[2])
+				}
+				out = append(out, hp)
+			}
+		}
 		for _, a := range f.AnonFuncs {
 			scan(a)
 		}
